@@ -65,6 +65,22 @@ func TestWirePair(t *testing.T) {
 		c := cases[i]
 		rp := replayOf("TestWirePair", c.line)
 		sv, sw := w.state(&c.V), w.state(&c.W)
+		// the second value in the OTHER representation of "nothing": nil where the first has an empty slice and vice
+		// versa (index maps, the list of locked sub-allocations) - the encodings do not tell them apart, nor may Equal
+		if sw != nil {
+			for k := range sw.Locked {
+				if sw.Locked[k].IndexMap == nil {
+					sw.Locked[k].IndexMap = []channel.Index{}
+				} else if len(sw.Locked[k].IndexMap) == 0 {
+					sw.Locked[k].IndexMap = nil
+				}
+			}
+			if sw.Locked == nil {
+				sw.Locked = []channel.SubAlloc{}
+			} else if len(sw.Locked) == 0 {
+				sw.Locked = nil
+			}
+		}
 		res.Seen("case", c.Name)
 		desc := func() string {
 			return fmt.Sprintf("pair '%s': v = %s, w = %s", c.Name, short(canon(&c.V), 400), short(canon(&c.W), 400))
